@@ -88,6 +88,11 @@ func c18Corpus(rng interface{ Intn(int) int }, id int, r *verifkit.M) *corpus.Co
 			}
 			if cnt == 1 { // only split repositories that sit alone in a simple shard
 				dup.Shard = shard
+				// ... the second part in a simple shard of its own, or inside a compound shard next to
+				// another repository (whose statistics must not leak into this repository's entry)
+				if rng.Intn(2) == 0 && last.Shard != c.Repos[0].Shard {
+					dup.Shard = last.Shard
+				}
 				c.Repos = append(c.Repos, dup)
 			}
 		}
